@@ -14,7 +14,14 @@ user's own GNUPGHOME while ``-K`` is in use, every single-byte mutation of a gen
 signed cleartext body.  All gpg processes started by gemato are recorded at the
 ``subprocess`` boundary (argv, GNUPGHOME, status output, exit), which also validates the
 Part A alphabet against what gpg really emits and the Part A predicate against gpg's
-real verdicts.
+real verdicts.  The user-home family (B2) runs under every constructor option (proxy, debug; constructor and
+clone(); CLI --proxy / --debug).
+
+Part E (scripted backend, scripted ``requests``): the isolation clause for every constructor option of
+``IsolatedGPGEnvironment`` x every operation that starts a backend process (all operation sequences up to a
+bound, ended by close()) x what the process environment exports; EV: the acceptance rule of Part A through an
+isolated environment under every option; EC: the ``-K`` command lines with their environment flags.  On EVERY
+backend process the GnuPG home it works on must be the environment's own.
 """
 
 import ast
@@ -86,9 +93,27 @@ RULE = ('Part A: plain product enumeration of ALL sequences of length <= L (L=4 
         'non-trivial = the sequence holds at least one per-signature keyword and the reference verdict is definite. '
         'Part B: real gpg, full products: 17 key/message states x 7 owner-trust values x {verify_file, load}; '
         '17 key/message states x `gemato verify -K -R` x {-s} x {-P}; 4 contents of the user GNUPGHOME x 3 key '
-        'files x {CLI, CLI -s, IsolatedGPGEnvironment verify_file+load} with a byte snapshot of the user home; '
-        'every position of the signed cleartext body x {xor 0x01, xor 0x20, delete, duplicate}; a transition is '
-        'one backend (gpg/gpgconf or scripted) process started by gemato')
+        'files x proxy {None, URL} x debug {False, True} x {`verify -K -R [--proxy URL] [--debug]`, the same with -s, '
+        'IsolatedGPGEnvironment(debug, proxy), IsolatedGPGEnvironment(debug, proxy).clone()} where the two library '
+        'entries run import_key, list_keys, verify_file, ManifestFile.load, clear_sign_file, close, with the user '
+        'GNUPGHOME exported, a byte snapshot of the user home around every configuration, and GNUPGHOME of EVERY '
+        'gpg/gpgconf process gemato starts compared with the environment\'s own home; '
+        'every position of the signed cleartext body x {xor 0x01, xor 0x20, delete, duplicate}. '
+        'Part E (scripted gpg and scripted `requests`, so no process and no network; isolation clause for every '
+        'constructor option and every gpg-spawning operation): full product IsolatedGPGEnvironment proxy {None, URL1, '
+        'URL2} x debug {False, True} x {constructor, .clone()} x process environment {GNUPGHOME exported or not} x '
+        '{http_proxy exported or not} x ALL sequences of length <= K (K=2 quick, 3 thorough) over the '
+        '@E_OPS@, each sequence ended by close(); on every backend process: '
+        'its GnuPG home (--homedir, else GNUPGHOME it is given, else the inherited one) must be the home of the '
+        'environment that started it, never absent and never the exported user home; verdict operations also judged '
+        'by the Part A predicate. Part EV: ALL status sequences of length <= M (M=3 quick, 4 thorough) x exit {0,1,2} '
+        'through IsolatedGPGEnvironment(debug, proxy).verify_file and ManifestFile.load for each of the 6 option '
+        'combinations, judged by the Part A predicate + home check on each process. Part EC: `gemato {verify, '
+        'openpgp-verify} -K keyfile` x --proxy {absent, URL1, URL2} x {--debug} x refresh flags {none, -R, -W, '
+        '--keyserver U, -W --keyserver U} x {-s} (verify) x the 4 process environments x 3 scripted verdicts; all '
+        'backend processes of one command line must use one home below the temporary directory, not the exported '
+        'one; verify exit status / report judged as in Part A; '
+        'a transition is one backend (gpg/gpgconf or scripted) process started by gemato')
 ASSUMPTIONS = [
     'reference predicate (seq_facts/expect in this file) restates the statement: accept iff exit 0 and GOODSIG and '
     'VALIDSIG and a TRUST_ line of level marginal/fully/ultimate and no EXPKEYSIG/REVKEYSIG; rejection class must '
@@ -113,6 +138,20 @@ ASSUMPTIONS = [
     'mutants with unchanged canonical text, and mutants whose changed byte is itself trailing whitespace '
     '(the statement exempts it; gpg e.g. ignores a NUL that replaces a trailing blank), are DONT_CARE',
     'user-home snapshot ignores sockets (S.*), lock files (.#lk*, *.lock) and random_seed',
+    'isolation oracle (Parts B2, E, EV, EC): "only the keys from that file count, whatever the user\'s own keyring '
+    'contains, which is left untouched" is read as: every backend process an isolated environment starts works on '
+    'that environment\'s own GnuPG home (IsolatedGPGEnvironment.home; CLI: one directory below tempfile.tempdir) -- '
+    'given by --homedir or by GNUPGHOME in the environment handed to the process -- whatever constructor options '
+    '(debug, proxy) are in force and whatever the process environment exports; the constructor accepts exactly '
+    'debug and proxy (both enumerated); proxy URLs are three fixed unreachable URLs rotated by VERIF_SEED',
+    'DONT_CARE in the option families: result of list_keys / clear_sign_file / refresh_keys* / import_key (only '
+    'where their processes work is judged; an internal error is still reported), exit status of openpgp-verify, '
+    'whether the isolated home is removed by close() of a library environment (debug=True keeps it by design; the '
+    'CLI without --debug must not leave it behind, as in B1cli)',
+    'Part E/EV/EC replace the names `subprocess` and `requests` inside gemato.openpgp (scripted Popen answering '
+    'gpg\'s commands --import, --import-ownertrust, --list-keys, --verify, --clearsign, --refresh-keys, '
+    '--delete-keys and gpgconf --kill with success; scripted requests.get answering every WKD URL), so '
+    'refresh_keys* run without network; the real refresh against a keyserver is out of scope',
 ]
 
 
@@ -1195,7 +1234,7 @@ def b1cli_run(spec, tier, seed, scratch, stats):
             _emit(stats, sig, case, msg)
 
 
-# ---------------------------------------------------------------- B2: the user's own GNUPGHOME
+# ---------------------------------------------------------------- B2: the user's own GNUPGHOME x constructor options
 
 USER_HOMES = collections.OrderedDict([
     # name -> (keys imported at ultimate trust, SystemGPGEnvironment accepts the fixture with this home)
@@ -1205,8 +1244,21 @@ USER_HOMES = collections.OrderedDict([
     ('signer_revoked', (['revoked'], False)),
 ])
 B2_KEYFILES = (('valid', True), ('other', False), ('expired', False))
-B2_IFACES = ('cli', 'cli -s', 'lib')
+B2_IFACES = ('cli', 'cli -s', 'lib', 'lib clone')
+# every option the environment constructors / `-K` commands accept: proxy (None or a URL; nothing listens there
+# and with -R / without refresh_keys() no network access is attempted) x debug
+PROXY_URLS = ('http://127.0.0.1:9', 'https://user:pw@proxy.invalid:3128', 'http://[::1]:9/')
+B2_PROXY = (None, 0)                # None or an index into PROXY_URLS rotated by VERIF_SEED
+B2_DEBUG = (False, True)
 _IGN = ('S.', '.#lk')
+
+
+def proxy_url(seed, i):
+    return None if i is None else PROXY_URLS[(i + seed) % len(PROXY_URLS)]
+
+
+def opt_text(proxy, debug):
+    return f'debug={debug!r}, proxy={proxy!r}'
 
 
 def snapshot_home(home):
@@ -1240,12 +1292,90 @@ def make_user_home(scratch, content):
     return home
 
 
-def b2_config(content, keyname, iface, scratch, stats=None, home=None):
-    """One (user home content, key file, entry point) configuration.  -> violations"""
+def _dispose_env(env, home):
+    """Harness-side clean-up of an isolated environment whatever gemato did (debug=True leaves the home)."""
+    try:
+        env.close()
+    except Exception:               # noqa: BLE001 - the judged close() already ran
+        pass
+    if home and os.path.isdir(home):
+        _kill_agents(home)
+        shutil.rmtree(home, ignore_errors=True)
+
+
+def b2_lib(env, rec, text, expected, ctx, desc):
+    """Every gpg-spawning operation of the library on ONE isolated environment, real gpg.
+    -> (violations [(sig, text)], labels, executions, judged)"""
+    M = material()
+    viols, labels = [], []
+    ihome = env.home
+    n_exec = n_judged = 0
+
+    def spawn_check(mark, what):
+        calls = rec.log[mark:]
+        for sig, t in check_homes(calls, ihome, ctx['user_home']):
+            viols.append((sig, f'{desc}: during {what}: {t}'))
+        return calls
+
+    # operations without a verdict of their own: judged on where their gpg processes worked only
+    for what, fn in (('import_key()', lambda: env.import_key(io.BytesIO(M['keys'][ctx['key']]))),
+                     ('list_keys()', env.list_keys)):
+        mark = len(rec.log)
+        try:
+            fn()
+            labels.append('ok')
+        except gx.GematoException as e:
+            labels.append(type(e).__name__)
+        except Exception as e:      # noqa: BLE001
+            viols.append(({'check': 'internal_error', 'exc': type(e).__name__, 'where': where_of(e)},
+                          f'{desc}: {what} raised {e!r}'))
+            labels.append('internal')
+        spawn_check(mark, what)
+        n_exec += 1
+    for fn in (obs_verify_file, obs_load):
+        mark = len(rec.log)
+        o = fn(env, text)
+        calls = spawn_check(mark, o.iface)
+        vs, _mm = b_judge(expected, calls, o, KEY_FPR, {'isolation': True})
+        seq, ex, _u, _r = real_facts(calls)
+        labels.append(o.label())
+        for sig, t in vs:
+            if sig['check'] == 'accepted_invalid':
+                sig = {'check': 'isolated_env_validated_by_foreign_keyring'}
+            viols.append((sig, f'[{o.iface}] {desc}, gpg said {" ".join(names(seq or ()))} exit {ex}: {t}'))
+        n_exec += 1
+        n_judged += 1
+    # signing with an environment that holds public keys only: the outcome is not the subject of C05 (DONT_CARE),
+    # where gpg worked is
+    mark = len(rec.log)
+    try:
+        env.clear_sign_file(io.StringIO('DATA x 0\n'), io.StringIO())
+        labels.append('signed')
+    except gx.GematoException as e:
+        labels.append(type(e).__name__)
+    except Exception as e:          # noqa: BLE001
+        viols.append(({'check': 'internal_error', 'exc': type(e).__name__, 'where': where_of(e)},
+                      f'{desc}: clear_sign_file() raised {e!r}'))
+        labels.append('internal')
+    spawn_check(mark, 'clear_sign_file()')
+    n_exec += 1
+    mark = len(rec.log)
+    try:
+        env.close()
+    except Exception as e:          # noqa: BLE001
+        viols.append(({'check': 'internal_error', 'exc': type(e).__name__, 'where': where_of(e)},
+                      f'{desc}: close() raised {e!r}'))
+    spawn_check(mark, 'close()')
+    return viols, labels, n_exec, n_judged
+
+
+def b2_config(content, keyname, iface, scratch, stats=None, home=None, proxy=None, debug=False):
+    """One (user home content, key file, entry point, proxy, debug) configuration.  -> violations"""
     M = material()
     text = M['texts']['SIGNED_MANIFEST']
     expected = dict(B2_KEYFILES)[keyname]
-    case = {'part': 'B2', 'home': content, 'key': keyname, 'iface': iface}
+    case = {'part': 'B2', 'home': content, 'key': keyname, 'iface': iface, 'proxy': proxy, 'debug': bool(debug)}
+    opts = opt_text(proxy, debug)
     own = home is None
     old = os.environ.get('GNUPGHOME')
     viols = []
@@ -1254,59 +1384,80 @@ def b2_config(content, keyname, iface, scratch, stats=None, home=None):
             home = make_user_home(scratch, content)
         os.environ['GNUPGHOME'] = home
         before = snapshot_home(home)
-        ctx = {'isolation': True}
-        if iface == 'lib':
+        if iface.startswith('lib'):
             rec = Recorder()
-            labels = []
+            desc = (f'user home {content}, IsolatedGPGEnvironment({opts})' + ('.clone()' if iface == 'lib clone' else '')
+                    + f' holding key {keyname}')
+            ctx = {'user_home': home, 'key': keyname}
             with _patched(rec.popen):
-                env = _iso_env(os.path.join(scratch))
-                ihome = env.home
+                with _tmp_under(scratch):
+                    env0 = IsolatedGPGEnvironment(debug=debug, proxy=proxy)
+                    home0 = env0.home
+                    env, ihome = env0, home0
+                    if iface == 'lib clone':
+                        try:
+                            env = env0.clone()
+                            ihome = env.home
+                        except Exception:           # noqa: BLE001
+                            _dispose_env(env0, home0)
+                            raise
                 try:
-                    env.import_key(io.BytesIO(M['keys'][keyname]))
-                    for fn in (obs_verify_file, obs_load):
+                    vs, labels, n_exec, n_judged = b2_lib(env, rec, text, expected, ctx, desc)
+                    if env is not env0:
                         mark = len(rec.log)
-                        o = fn(env, text)
-                        vs, _mm = b_judge(expected, rec.log[mark:], o, KEY_FPR, ctx)
-                        seq, ex, _u, _r = real_facts(rec.log[mark:])
-                        labels.append(o.label())
-                        for sig, t in vs:
-                            if sig['check'] == 'accepted_invalid':
-                                sig = {'check': 'isolated_env_validated_by_foreign_keyring'}
-                            viols.append((sig, case, f'{sig["check"]}: [{o.iface}] user home {content}, isolated key '
-                                                     f'{keyname}, gpg said {" ".join(names(seq or ()))} exit {ex}: {t}'))
+                        env0.close()
+                        for sig, t in check_homes(rec.log[mark:], home0, home):
+                            vs.append((sig, f'{desc}: during close() of the cloned environment: {t}'))
                 finally:
-                    env.close()
+                    _dispose_env(env, ihome)
+                    if env is not env0:
+                        _dispose_env(env0, home0)
+            seen = set()
+            for sig, t in vs:
+                k = repr(sorted(sig.items()))
+                if k not in seen:                   # one report per kind and configuration
+                    seen.add(k)
+                    viols.append((sig, case, f'{sig["check"]}: {t}'))
             calls = rec.log
-            for sig, t in check_homes(calls, ihome, home):
-                viols.append((sig, case, f'{sig["check"]}: user home {content}, isolated key {keyname}: {t}'))
             label = '/'.join(labels)
-            n_exec = 2
         else:
             flags = ('-s',) if iface == 'cli -s' else ()
-            o, calls, tmp, leftovers = b_cli_run(M['keys'][keyname], text, flags, scratch, home)
+            env_flags = (('--proxy', proxy) if proxy is not None else ()) + (('--debug',) if debug else ())
+            o, calls, tmp, leftovers = b_cli_run(M['keys'][keyname], text, flags, scratch, home, env_flags)
             seq, ex, _u, _r = real_facts(calls)
             vs = judge_cli('accept' if expected else 'reject', o, True, bool(flags))
+            what = f'[{o.iface} -K -R{"".join(" " + x for x in env_flags)}] user home {content}, key file {keyname}'
             for sig, t in vs:
                 if sig['check'] == 'accepted_invalid':
                     sig = {'check': 'isolated_env_validated_by_foreign_keyring'}
-                viols.append((sig, case, f'{sig["check"]}: [{o.iface} -K -R] user home {content}, key file {keyname}, '
+                viols.append((sig, case, f'{sig["check"]}: {what}, '
                                          f'gpg said {" ".join(names(seq or ()))} exit {ex}; CLI {o.label()}: {t}'))
             for sig, t in cli_homes_check(calls, tmp, home):
-                viols.append((sig, case, f'{sig["check"]}: user home {content}, key file {keyname}: {t}'))
+                viols.append((sig, case, f'{sig["check"]}: {what}: {t}'))
             label = o.label()
-            n_exec = 1
+            n_exec = n_judged = 1
         after = snapshot_home(home)
         if after != before:
             changed = sorted(k for k in set(before) | set(after) if before.get(k) != after.get(k))
             viols.append(({'check': 'user_home_modified'}, case,
-                          f'user_home_modified: the user\'s GNUPGHOME changed while an isolated environment was in use: {changed}'))
+                          f'user_home_modified: the user\'s GNUPGHOME changed while an isolated environment '
+                          f'({opts}; {iface}) was in use: {changed}'))
+            if not own:                             # the next configuration starts from the stated content again
+                _kill_agents(home)
+                make_user_home(scratch, content)
         if stats is not None:
             stats.evaluations += n_exec
             stats.compared += n_exec
             note_calls(stats, calls)
             stats.counters['B2_home_snapshots_compared'] += 1
-            stats.outcomes[f'B2:{"accept" if expected else "reject"}/{iface}/{label}'] += 1
-            stats.case(('B2', content, keyname, iface), nontrivial=True)
+            stats.counters[f'B2_opt:{"proxy" if proxy is not None else "no-proxy"},{"debug" if debug else "no-debug"}'] += 1
+            stats.counters['B2_backend_processes_checked_for_GNUPGHOME'] += len(calls)
+            acc = 'accept' if expected else 'reject'
+            stats.outcomes[f'B2:{acc}/{iface}/{label}'] += 1
+            if proxy is not None or debug:
+                stats.outcomes[f'B2opt:{acc}/{"lib" if iface.startswith("lib") else "cli"}/'
+                               + (label.split('/')[2] if iface.startswith('lib') else label)] += 1
+            stats.case(('B2', content, keyname, iface, proxy is not None, bool(debug)), nontrivial=True)
     finally:
         if old is None:
             os.environ.pop('GNUPGHOME', None)
@@ -1318,7 +1469,8 @@ def b2_config(content, keyname, iface, scratch, stats=None, home=None):
 
 
 def b2_run(spec, tier, seed, scratch, stats):
-    content = spec[1]
+    content, pi, debug = spec[1], spec[2], spec[3]
+    proxy = proxy_url(seed, pi)
     M = material()
     home = make_user_home(scratch, content)
     old = os.environ.get('GNUPGHOME')
@@ -1328,17 +1480,17 @@ def b2_run(spec, tier, seed, scratch, stats):
         os.environ['GNUPGHOME'] = home
         rec = Recorder()
         with _patched(rec.popen):
-            o = obs_verify_file(SystemGPGEnvironment(), M['texts']['SIGNED_MANIFEST'])
+            o = obs_verify_file(SystemGPGEnvironment(debug=debug, proxy=proxy), M['texts']['SIGNED_MANIFEST'])
         want = USER_HOMES[content][1]
         vs, mismatch = b_judge(want, rec.log, o, KEY_FPR, {'home': content, 'env': 'system'})
         for sig, t in vs:
-            _emit(stats, sig, {'part': 'B2control', 'home': content},
-                  f'{sig["check"]}: [SystemGPGEnvironment.verify_file] user home {content}: {t}')
+            _emit(stats, sig, {'part': 'B2control', 'home': content, 'proxy_i': pi, 'debug': debug, 'seed': seed},
+                  f'{sig["check"]}: [SystemGPGEnvironment({opt_text(proxy, debug)}).verify_file] user home {content}: {t}')
         stats.evaluations += 1
         stats.compared += 1
         note_calls(stats, rec.log)
         stats.outcomes[f'B2control:{"accept" if want else "reject"}/{o.label()}'] += 1
-        stats.case(('B2control', content), nontrivial=True)
+        stats.case(('B2control', content, pi, debug), nontrivial=True)
         if mismatch:
             stats.counters['B_model_mismatch'] += 1
             stats.notes.append(mismatch)
@@ -1352,7 +1504,8 @@ def b2_run(spec, tier, seed, scratch, stats):
     try:
         for keyname, _exp in B2_KEYFILES:
             for iface in B2_IFACES:
-                for sig, case, msg in b2_config(content, keyname, iface, scratch, stats, home=home):
+                for sig, case, msg in b2_config(content, keyname, iface, scratch, stats, home=home, proxy=proxy,
+                                                debug=debug):
                     _emit(stats, sig, case, msg)
     finally:
         _kill_agents(home)
@@ -1361,10 +1514,13 @@ def b2_run(spec, tier, seed, scratch, stats):
 def b2_replay(case, scratch):
     if case['part'] == 'B2control':
         st = Stats()
-        b2_run(('B2', case['home']), 'quick', 0, scratch, st)
-        return [{'sig': v['sig'], 'case': v['case'], 'message': v['message']} for v in st.violations]
+        b2_run(('B2', case['home'], case.get('proxy_i'), bool(case.get('debug'))), 'quick', case.get('seed', 0),
+               scratch, st)
+        return [{'sig': v['sig'], 'case': v['case'], 'message': v['message']} for v in st.violations
+                if v['case'].get('part') == 'B2control']
     return [{'sig': s, 'case': c, 'message': m}
-            for s, c, m in b2_config(case['home'], case['key'], case['iface'], scratch)]
+            for s, c, m in b2_config(case['home'], case['key'], case['iface'], scratch, proxy=case.get('proxy'),
+                                     debug=bool(case.get('debug')))]
 
 
 # ---------------------------------------------------------------- B3: every single-byte mutation of a signed body
@@ -1543,6 +1699,536 @@ def b3_replay(case, scratch):
     return [{'sig': s, 'case': case, 'message': f'{s["check"]}: {t}'} for s, t in viols]
 
 
+# ====================================================================== Part E: constructor options x gpg-spawning operations
+#
+# Scripted backend (no gpg process, no network): the isolation clause "only the keys from that file count, whatever
+# the user's own keyring contains, which is left untouched" is checked where it is decided -- on EVERY backend
+# process an isolated environment starts, whatever options it was constructed with and whatever operation starts it.
+
+E_PROXY = (None, 0, 1)              # None or an index into PROXY_URLS rotated by VERIF_SEED
+E_DEBUG = (False, True)
+E_VIA = ('ctor', 'clone')
+# (GNUPGHOME exported in the process environment, http_proxy exported in the process environment)
+E_AMBIENT = ((False, False), (True, False), (False, True), (True, True))
+E_AMBIENT_PROXY = 'http://ambient-proxy.invalid:1'
+# name -> verdict script (status sequence, exit) for the operations that return a verdict
+E_VERDICTS = collections.OrderedDict([
+    ('verify_file:good', (('GOODSIG', 'VALIDSIG', 'TRUST_ULTIMATE'), 0)),
+    ('verify_file:untrusted', (('GOODSIG', 'VALIDSIG', 'TRUST_UNDEFINED'), 0)),
+    ('load:good', (('GOODSIG', 'VALIDSIG', 'TRUST_FULLY'), 0)),
+    ('load:bad', (('BADSIG',), 1)),
+])
+# every public operation of IsolatedGPGEnvironment that starts a backend process (close() ends every sequence)
+E_OPS = ('import_key', 'import_key(trust=False)', 'list_keys') + tuple(E_VERDICTS) + (
+    'clear_sign_file', 'clear_sign_file(keyid)', 'refresh_keys', 'refresh_keys(allow_wkd=False,keyserver)',
+    'refresh_keys_wkd', 'refresh_keys_keyserver')
+E_KEYSERVER = 'hkps://keys.invalid'
+RULE = RULE.replace('@E_OPS@', f'{len(E_OPS)} operations {", ".join(E_OPS)}')
+
+
+def e_len(tier):
+    return 2 if tier == 'quick' else 3
+
+
+def ev_len(tier):
+    return 3 if tier == 'quick' else 4
+
+
+class _ScriptProc:
+    def __init__(self, out, exit_):
+        self._out, self._exit = out, exit_
+        self.returncode = None
+
+    def communicate(self, input=None, timeout=None):
+        self.returncode = self._exit
+        return self._out, b'gpg: scripted backend answer\n'
+
+    def wait(self, timeout=None):
+        self.returncode = self._exit
+        return self._exit
+
+    def poll(self):
+        return self.returncode
+
+    def kill(self):
+        pass
+
+
+class ScriptGpg:
+    """A scripted gpg/gpgconf: answers every command of gpg's command vocabulary that gemato uses with a
+    plausible, successful result and records (argv, home the process would work on)."""
+
+    def __init__(self, P):
+        self.P = P
+        self.log = []
+        self.verify = (b'', 2)
+        self.unscripted = 0
+        kid = P.pk[-16:]
+        self.listing = (f'tru::1:1510131686:0:3:1:5\npub:u:2048:1:{kid}:1509702783:::u:::scESC::::::23::0:\n'
+                        f'fpr:::::::::{P.pk}:\nuid:u::::1509702783::0000::gemato test key <gemato@example.com>'
+                        f'::::::::::0:\n').encode('ascii')
+        # the WKD answer / key file "holds" the key in the keyring and one more key
+        self.imported = (f'[GNUPG:] IMPORT_OK 1 {P.pk}\n[GNUPG:] IMPORT_OK 1 {OTHER_FPR_E}\n'
+                         '[GNUPG:] IMPORT_RES 2 0 2 0 0 0 0 0 0 0 0 0 0 0 0\n').encode('ascii')
+
+    def popen(self, argv, stdin=None, stdout=None, stderr=None, env=None, **kw):
+        argv = list(argv)
+        self.log.append({'argv': argv, 'home': effective_home(argv, env), 'out': b'', 'err': b'', 'exit': 0})
+        out, ex = b'', 0
+        if argv and argv[0] == GNUPGCONF:
+            pass
+        elif '--verify' in argv:
+            out, ex = self.verify
+        elif '--import' in argv:
+            out = self.imported
+        elif '--list-keys' in argv:
+            out = self.listing
+        elif '--clearsign' in argv:
+            out = self.P.envelope.encode('ascii')
+        elif not any(a in argv for a in ('--import-ownertrust', '--refresh-keys', '--delete-keys')):
+            self.unscripted += 1
+        self.log[-1]['exit'] = ex
+        return _ScriptProc(out, ex)
+
+
+OTHER_FPR_E = '4B8349B90C56EE7F054D52871822F5424EB6DA81'
+
+
+class _Resp:
+    content = b'scripted WKD answer'
+
+    def raise_for_status(self):
+        pass
+
+
+class _ReqExceptions:
+    class ConnectionError(Exception):
+        pass
+
+    class HTTPError(Exception):
+        pass
+
+
+class _ShimGap(Exception):
+    """gemato used a part of `requests` the scripted stand-in does not model: the operation is not judged."""
+
+
+class _Requests:
+    """Stands for the optional module `requests` inside gemato.openpgp: no network, every WKD URL answers."""
+    exceptions = _ReqExceptions
+
+    def __init__(self):
+        self.gets = 0
+
+    def __getattr__(self, name):
+        raise _ShimGap(name)
+
+    def get(self, url, **kw):
+        self.gets += 1
+        return _Resp()
+
+
+@contextlib.contextmanager
+def _scripted(sg, req):
+    old = (gpgmod.subprocess, gpgmod.requests)
+    gpgmod.subprocess, gpgmod.requests = _Shim(sg.popen), req
+    try:
+        yield
+    finally:
+        gpgmod.subprocess, gpgmod.requests = old
+        logging.getLogger().setLevel(logging.INFO)
+
+
+@contextlib.contextmanager
+def _ambient(gnupghome, http_proxy):
+    """The process environment gemato runs in: GNUPGHOME / http_proxy exported (value) or not (None)."""
+    keys = ('GNUPGHOME', 'http_proxy')
+    old = {k: os.environ.get(k) for k in keys}
+    try:
+        for k, v in zip(keys, (gnupghome, http_proxy)):
+            if v is None:
+                os.environ.pop(k, None)
+            else:
+                os.environ[k] = v
+        yield
+    finally:
+        for k, v in old.items():
+            if v is None:
+                os.environ.pop(k, None)
+            else:
+                os.environ[k] = v
+
+
+def _e_dirs(scratch):
+    tmp = fresh_root(scratch, 'e-tmp')
+    user = os.path.join(scratch, 'e-user-gnupghome')
+    os.makedirs(user, mode=0o700, exist_ok=True)
+    return tmp, user
+
+
+def _e_op(op, env, P, sg):
+    """Run one operation.  -> (Obs for verdict operations | None, label)"""
+    if op in E_VERDICTS:
+        seq_names, ex = E_VERDICTS[op]
+        sg.verify = (P.stdout(tuple(IDX[k] for k in seq_names)), ex)
+        o = (obs_verify_file if op.startswith('verify_file') else obs_load)(env, P.envelope)
+        return o, o.label()
+    try:
+        if op == 'import_key':
+            env.import_key(io.BytesIO(b'scripted key file'))
+        elif op == 'import_key(trust=False)':
+            env.import_key(io.BytesIO(b'scripted key file'), trust=False)
+        elif op == 'list_keys':
+            env.list_keys()
+        elif op == 'clear_sign_file':
+            env.clear_sign_file(io.StringIO('DATA x 0\n'), io.StringIO())
+        elif op == 'clear_sign_file(keyid)':
+            env.clear_sign_file(io.StringIO('DATA x 0\n'), io.StringIO(), keyid=P.fpr)
+        elif op == 'refresh_keys':
+            env.refresh_keys()
+        elif op == 'refresh_keys(allow_wkd=False,keyserver)':
+            env.refresh_keys(allow_wkd=False, keyserver=E_KEYSERVER)
+        elif op == 'refresh_keys_wkd':
+            env.refresh_keys_wkd()
+        elif op == 'refresh_keys_keyserver':
+            env.refresh_keys_keyserver()
+        else:
+            raise ValueError(op)
+        return None, 'ok'
+    except gx.GematoException as e:
+        return None, 'exc:' + type(e).__name__
+    except _ShimGap:
+        return None, 'requests-stand-in-incomplete'
+    except Exception as e:          # noqa: BLE001 - observation
+        o = Obs(op)
+        _fill_exc(o, e)
+        return o, 'internal'
+
+
+def e_case(pi, debug, via, amb, ops, seed, scratch, stats=None):
+    """One (proxy, debug, construction, process environment, operation sequence) case.  -> [(sig, case, msg)]"""
+    P = present(seed)
+    proxy = proxy_url(seed, pi)
+    tmp, user = _e_dirs(scratch)
+    sg = ScriptGpg(P)
+    case = {'part': 'E', 'proxy_i': pi, 'debug': bool(debug), 'via': via, 'ambient': list(amb), 'ops': list(ops),
+            'seed': seed}
+    desc = (f'IsolatedGPGEnvironment({opt_text(proxy, debug)})' + ('.clone()' if via == 'clone' else '')
+            + f' with GNUPGHOME {"exported" if amb[0] else "not exported"}'
+            + (', http_proxy exported' if amb[1] else ''))
+    forbidden = user if amb[0] else None
+    viols = []
+    seen = set()
+
+    def emit(sig, text):
+        k = repr(sorted(sig.items()))
+        if k not in seen:
+            seen.add(k)
+            viols.append((sig, case, f'{sig["check"]}: {desc}: {text}'))
+
+    def spawns(mark, home, what):
+        calls = sg.log[mark:]
+        for sig, t in check_homes(calls, home, forbidden):
+            emit(sig, f'during {what} (operations so far: {", ".join(ops) or "none"}): {t}')
+        return calls
+
+    with _ambient(user if amb[0] else None, E_AMBIENT_PROXY if amb[1] else None), _scripted(sg, _Requests()), \
+            _tmp_under(tmp):
+        envs = []
+        try:
+            env = IsolatedGPGEnvironment(debug=debug, proxy=proxy)
+            envs.append((env, env.home))
+            if via == 'clone':
+                env = env.clone()
+                envs.append((env, env.home))
+            home = envs[-1][1]
+            if home == user or not os.path.isdir(home):
+                emit({'check': 'isolated_home_not_private'}, f'the environment\'s home is {home!r}')
+            for op in ops:
+                mark = len(sg.log)
+                o, label = _e_op(op, env, P, sg)
+                calls = spawns(mark, home, op)
+                if stats is not None:
+                    stats.evaluations += 1
+                    stats.counters['E_spawns:' + op] += len(calls)
+                if o is not None and o.where is not None:
+                    emit({'check': 'internal_error', 'exc': o.exc, 'where': o.where},
+                         f'{op}: internal error {o.exc} at {o.where}: {o.detail}')
+                    label = 'internal'
+                elif op in E_VERDICTS:
+                    seq_names, ex = E_VERDICTS[op]
+                    f = seq_facts(tuple(IDX[k] for k in seq_names))
+                    kind, info = expect(f, ex)
+                    for sig, t in judge_lib(kind, info, o, f, ex):
+                        emit(sig, f'[{op}] status {" ".join(seq_names)} exit {ex}: {t}')
+                    if stats is not None:
+                        stats.compared += 1
+                        stats.outcomes[f'E:{kind}/{o.iface}/{label}'] += 1
+                elif stats is not None:
+                    stats.compared += 1         # judged on where its backend processes worked
+                    stats.outcomes[f'E:{op.split("(")[0]}/{label}'] += 1
+            for e, h in reversed(envs):
+                mark = len(sg.log)
+                e.close()
+                calls = spawns(mark, h, 'close()')
+                if stats is not None:
+                    stats.evaluations += 1
+                    stats.compared += 1
+                    stats.counters['E_spawns:close'] += len(calls)
+                    stats.outcomes['E:close/' + ('home kept (debug)' if os.path.isdir(h) else 'home removed')] += 1
+        except Exception as e:      # noqa: BLE001 - constructor / clone / close failing is an internal error
+            if isinstance(e, (KeyboardInterrupt, MemoryError)):
+                raise
+            emit({'check': 'internal_error', 'exc': type(e).__name__, 'where': where_of(e)},
+                 f'constructing, cloning or closing the environment raised {e!r}')
+        finally:
+            for e, h in envs:
+                try:
+                    e.close()
+                except Exception:   # noqa: BLE001
+                    pass
+                shutil.rmtree(h, ignore_errors=True)
+    if stats is not None:
+        stats.transitions += len(sg.log)
+        stats.counters['E_backend_processes_checked_for_GNUPGHOME'] += len(sg.log)
+        stats.counters['E_backend_argv_unscripted'] += sg.unscripted
+    return viols
+
+
+def e_run(spec, tier, seed, scratch, stats):
+    _e, pi, debug, via, amb = spec
+    L = e_len(tier)
+    for n in range(L + 1):
+        for ops in itertools.product(E_OPS, repeat=n):
+            for sig, case, msg in e_case(pi, debug, via, amb, ops, seed, scratch, stats):
+                _emit(stats, sig, case, msg)
+            stats.counters['E_cases'] += 1
+            stats.case(('E', pi, debug, via, amb, ops), nontrivial=n > 0)
+    stats.counters[f'E_opt:proxy={"none" if pi is None else pi},debug={debug},{via}'] += 1
+    if len(stats.samples) < 1 and spec[1:] == (0, False, 'ctor', (True, False)):
+        P = present(seed)
+        sg = ScriptGpg(P)
+        tmp, user = _e_dirs(scratch)
+        with _ambient(user, None), _scripted(sg, _Requests()), _tmp_under(tmp):
+            with IsolatedGPGEnvironment(proxy=proxy_url(seed, 0)) as env:
+                home = env.home
+                env.import_key(io.BytesIO(b'scripted key file'))
+        stats.sample({'part': 'E', 'proxy': proxy_url(seed, 0), 'exported GNUPGHOME': '<user>',
+                      'backend processes': [[' '.join(r['argv'][1:]),
+                                             'isolated home' if r['home'] == home else
+                                             ('<user>' if r['home'] == user else str(r['home']))] for r in sg.log]})
+
+
+# ---------------------------------------------------------------- EV: the acceptance rule under every option
+
+def ev_slow(pi, debug, seq, ex, seed, scratch):
+    """Full judgement of one (options, sequence, exit) case through IsolatedGPGEnvironment.verify_file and
+    ManifestFile.load.  -> [(sig, case, msg)]"""
+    P = present(seed)
+    proxy = proxy_url(seed, pi)
+    seq = tuple(seq)
+    f = seq_facts(seq)
+    kind, info = expect(f, ex)
+    tmp, _user = _e_dirs(scratch)
+    sg = ScriptGpg(P)
+    sg.verify = (P.stdout(seq), ex)
+    case = {'part': 'EV', 'proxy_i': pi, 'debug': bool(debug), 'seq': names(seq), 'exit': ex, 'seed': seed}
+    viols = []
+    with _scripted(sg, _Requests()), _tmp_under(tmp):
+        env = IsolatedGPGEnvironment(debug=debug, proxy=proxy)
+        home = env.home
+        try:
+            for fn in (obs_verify_file, obs_load):
+                mark = len(sg.log)
+                o = fn(env, P.envelope)
+                for sig, t in judge_lib(kind, info, o, f, ex) + check_homes(sg.log[mark:], home, None):
+                    viols.append((sig, case, f'{sig["check"]}: [IsolatedGPGEnvironment({opt_text(proxy, debug)}).'
+                                             f'{o.iface}] status {" ".join(names(seq)) or "<none>"} exit {ex}: {t}'))
+        finally:
+            env.close()
+            shutil.rmtree(home, ignore_errors=True)
+    return viols
+
+
+def ev_run(spec, tier, seed, scratch, stats):
+    _e, pi, debug = spec
+    P = present(seed)
+    proxy = proxy_url(seed, pi)
+    L = ev_len(tier)
+    tmp, _user = _e_dirs(scratch)
+    sg = ScriptGpg(P)
+    text = P.envelope
+    outc = collections.Counter()
+    n_cases = n_dc = 0
+    slow = []
+    with _scripted(sg, _Requests()), _tmp_under(tmp):
+        env = IsolatedGPGEnvironment(debug=debug, proxy=proxy)
+        home = env.home
+        try:
+            for n in range(L + 1):
+                for seq in itertools.product(range(N), repeat=n):
+                    f = seq_facts(seq)
+                    out = P.stdout(seq)
+                    for ex in EXITS:
+                        kind, info = expect(f, ex)
+                        n_cases += 1
+                        sg.verify = (out, ex)
+                        del sg.log[:]
+                        m = ManifestFile()
+                        try:
+                            r = env.verify_file(io.StringIO(text))
+                            got = 'ret' if r is not None else 'ret:None'
+                            m.load(io.StringIO(text), verify_openpgp=True, openpgp_env=env)
+                            got2 = 'ret' if m.openpgp_signed and m.openpgp_signature is not None else 'ret:unsigned'
+                        except FAIL_CLASSES as e:
+                            got = got2 = type(e).__name__
+                            if m.openpgp_signed or m.openpgp_signature is not None:
+                                got2 = 'signed-after-failure'
+                        except Exception:       # noqa: BLE001 - slow path reports it
+                            got = got2 = 'internal'
+                        homes_ok = len(sg.log) >= 1 and all(r['home'] == home for r in sg.log)
+                        if kind == 'dc':
+                            n_dc += 1
+                            stats.dontcare[info] += 1
+                            bad = got in ('internal', 'ret:None') or (got == 'ret' and got2 != 'ret')
+                        elif kind == 'accept':
+                            bad = not (got == 'ret' and got2 == 'ret')
+                        else:
+                            bad = got not in info or got2 != got
+                        if bad or not homes_ok:
+                            slow.append((seq, ex))
+                        outc[f'EV:{kind}/' + ('ret' if got == 'ret' else 'exc:' + got)] += 1
+                        stats.counters['EV_backend_processes_checked_for_GNUPGHOME'] += len(sg.log)
+                        stats.transitions += len(sg.log)
+        finally:
+            env.close()
+            shutil.rmtree(home, ignore_errors=True)
+    for seq, ex in slow:
+        for sig, case, msg in ev_slow(pi, debug, seq, ex, seed, scratch):
+            _emit(stats, sig, case, msg)
+    stats.evaluations += 2 * n_cases
+    stats.compared += 2 * (n_cases - n_dc)
+    stats.outcomes.update(outc)
+    stats.counters['EV_cases'] += n_cases
+    stats.case(('EV', pi, debug), nontrivial=True)
+
+
+# ---------------------------------------------------------------- EC: the -K commands x their environment flags
+
+EC_CMDS = ('verify', 'openpgp-verify')
+EC_REFRESH = ((), ('-R',), ('-W',), ('--keyserver', E_KEYSERVER), ('-W', '--keyserver', E_KEYSERVER))
+EC_VERDICTS = ('verify_file:good', 'verify_file:untrusted', 'load:bad')
+
+
+def ec_case(cmd, pi, debug, refresh, sflag, amb, verdict, seed, scratch, stats=None):
+    """`gemato <cmd> -K keyfile [--proxy URL] [--debug] <refresh flags> [-s] target` on the scripted backend."""
+    P = present(seed)
+    proxy = proxy_url(seed, pi)
+    tmp, user = _e_dirs(scratch)
+    root = a_tree(scratch, P)
+    kf = os.path.join(scratch, 'e-key.bin')
+    with open(kf, 'wb') as fh:
+        fh.write(b'scripted key file')
+    sg = ScriptGpg(P)
+    seq_names, ex = E_VERDICTS[verdict]
+    sg.verify = (P.stdout(tuple(IDX[k] for k in seq_names)), ex)
+    f = seq_facts(tuple(IDX[k] for k in seq_names))
+    kind, _info = expect(f, ex)
+    pre = (('-K', kf) + (('--proxy', proxy) if proxy is not None else ()) + (('--debug',) if debug else ())
+           + tuple(refresh) + (('-s',) if sflag else ()))
+    target = root if cmd == 'verify' else os.path.join(root, 'Manifest')
+    case = {'part': 'EC', 'cmd': cmd, 'proxy_i': pi, 'debug': bool(debug), 'refresh': list(refresh), 's': bool(sflag),
+            'ambient': list(amb), 'verdict': verdict, 'seed': seed}
+    shown = ' '.join((cmd, '-K', '<keyfile>') + pre[2:])
+    desc = (f'`gemato {shown} …` with GNUPGHOME {"exported" if amb[0] else "not exported"}'
+            + (', http_proxy exported' if amb[1] else ''))
+    viols = []
+    with _ambient(user if amb[0] else None, E_AMBIENT_PROXY if amb[1] else None), _scripted(sg, _Requests()), \
+            _tmp_under(tmp):
+        o = Obs('cli')
+        r = gem.cli([cmd] + list(pre) + [target])
+        o.exit = r['exit']
+        o.reported = any(VALID_LOG in msg for _lv, msg in r['log'])
+        o.accepted = (o.exit == 0)
+        if r['kind'] == 'exc' and r.get('class') != 'exit':
+            o.exc = r['exc']
+            if r.get('class') == 'internal':
+                o.where = r.get('where')
+                o.detail = r.get('msg', '')
+    leftovers = sorted(d for d in os.listdir(tmp) if d.startswith('gemato.'))
+    vs = cli_homes_check(sg.log, tmp, user if amb[0] else None)
+    gap = o.exc == '_ShimGap'
+    if gap:
+        pass                        # the refresh step met an unmodelled part of `requests`: only the homes are judged
+    elif o.where is not None or o.exit is None:
+        vs.append(({'check': 'internal_error', 'exc': o.exc, 'where': o.where},
+                   f'internal error {o.exc} at {o.where}: {o.detail}'))
+    elif cmd == 'verify':
+        vs += judge_cli(kind, o, True, sflag)
+    if leftovers and not debug and not gap:
+        vs.append(({'check': 'isolated_home_not_removed'}, f'left behind {leftovers}'))
+    seen = set()
+    for sig, t in vs:
+        k = repr(sorted(sig.items()))
+        if k not in seen:
+            seen.add(k)
+            viols.append((sig, case, f'{sig["check"]}: {desc}; scripted gpg said {" ".join(seq_names)} exit {ex}; '
+                                     f'CLI {o.label()}: {t}'))
+    if stats is not None:
+        stats.evaluations += 1
+        stats.compared += 1
+        stats.transitions += len(sg.log)
+        stats.counters['EC_backend_processes_checked_for_GNUPGHOME'] += len(sg.log)
+        stats.counters['E_backend_argv_unscripted'] += sg.unscripted
+        for rr in sg.log:
+            stats.counters['EC_spawns:' + next((a for a in rr['argv'][1:] if a.startswith('--')
+                                                and a not in _NOT_AN_OP), '?')] += 1
+        stats.outcomes[f'EC:{kind}/{cmd}{" -s" if sflag else ""}/{o.label()}'] += 1
+        if gap:
+            stats.dontcare['scripted stand-in for `requests` incomplete for this gemato'] += 1
+    return viols
+
+
+def ec_run(spec, tier, seed, scratch, stats):
+    _e, cmd, pi, debug = spec
+    for refresh in EC_REFRESH:
+        for sflag in ((False, True) if cmd == 'verify' else (False,)):
+            for amb in E_AMBIENT:
+                for verdict in EC_VERDICTS:
+                    for sig, case, msg in ec_case(cmd, pi, debug, refresh, sflag, amb, verdict, seed, scratch, stats):
+                        _emit(stats, sig, case, msg)
+                    stats.counters['EC_cases'] += 1
+                    stats.case(('EC', cmd, pi, debug, refresh, sflag, amb, verdict), nontrivial=True)
+
+
+def e_space(tier):
+    per = sum(len(E_OPS) ** k for k in range(e_len(tier) + 1))
+    return per * len(E_PROXY) * len(E_DEBUG) * len(E_VIA) * len(E_AMBIENT)
+
+
+def ev_space(tier):
+    return sum(N ** k for k in range(ev_len(tier) + 1)) * len(EXITS) * len(E_PROXY) * len(E_DEBUG)
+
+
+def ec_space():
+    return (len(E_PROXY) * len(E_DEBUG) * len(EC_REFRESH) * len(E_AMBIENT) * len(EC_VERDICTS)
+            * sum(2 if c == 'verify' else 1 for c in EC_CMDS))
+
+
+def e_replay(case, scratch):
+    part = case['part']
+    if part == 'E':
+        got = e_case(case['proxy_i'], case['debug'], case['via'], tuple(case['ambient']), tuple(case['ops']),
+                     case['seed'], scratch)
+    elif part == 'EV':
+        got = ev_slow(case['proxy_i'], case['debug'], tuple(IDX[k] for k in case['seq']), case['exit'], case['seed'],
+                      scratch)
+    else:
+        got = ec_case(case['cmd'], case['proxy_i'], case['debug'], tuple(case['refresh']), case['s'],
+                      tuple(case['ambient']), case['verdict'], case['seed'], scratch)
+    return [{'sig': s, 'case': c, 'message': m} for s, c, m in got]
+
+
 # ====================================================================== runner interface
 
 def worker_init(tier, seed, scratch):
@@ -1559,7 +2245,9 @@ def shards(tier, seed):
     M = material()
     out = []
     for content in USER_HOMES:
-        out.append(('B2', content))
+        for pi in B2_PROXY:
+            for debug in B2_DEBUG:
+                out.append(('B2', content, pi, debug))
     for st in M['states']:
         out.append(('B1', st))
         out.append(('B1cli', st))
@@ -1567,9 +2255,19 @@ def shards(tier, seed):
         n = len(split_signed(text)[1])
         for s in range(0, n, B3_CHUNK):
             out.append(('B3', bi, s, s + B3_CHUNK))
+    for pi in E_PROXY:                  # the deep shards of the thorough tier go before the many small ones
+        for debug in E_DEBUG:
+            out.append(('EV', pi, debug))
+            for via in E_VIA:
+                for amb in E_AMBIENT:
+                    out.append(('E', pi, debug, via, amb))
     out.append(('A', 'short', 0))
     out += [('A', a, b) for a in range(N) for b in range(N)]
     out += [('H', i) for i in range(len(H_SEPS))]
+    for pi in E_PROXY:
+        for debug in E_DEBUG:
+            for cmd in EC_CMDS:
+                out.append(('EC', cmd, pi, debug))
     return out
 
 
@@ -1586,6 +2284,12 @@ def run_shard(spec, tier, seed, scratch):
         b1cli_run(spec, tier, seed, scratch, stats)
     elif kind == 'B2':
         b2_run(spec, tier, seed, scratch, stats)
+    elif kind == 'E':
+        e_run(spec, tier, seed, scratch, stats)
+    elif kind == 'EV':
+        ev_run(spec, tier, seed, scratch, stats)
+    elif kind == 'EC':
+        ec_run(spec, tier, seed, scratch, stats)
     else:
         b3_run(spec, tier, seed, scratch, stats)
     return stats
@@ -1605,6 +2309,8 @@ def replay(case, scratch):
                 for s, c, m in b1cli_config(case['state'], tuple(case['flags']), scratch)]
     if part in ('B2', 'B2control'):
         return b2_replay(case, scratch)
+    if part in ('E', 'EV', 'EC'):
+        return e_replay(case, scratch)
     return b3_replay(case, scratch)
 
 
@@ -1667,6 +2373,47 @@ def finish(total, tier):
         errs.append('vacuity: no user-home snapshot was compared')
     if not have('B2:reject/cli/') or not have('B2:accept/cli/'):
         errs.append('vacuity: user-home family lacks accept or reject cases')
+    for k in ('proxy,debug', 'proxy,no-debug', 'no-proxy,debug', 'no-proxy,no-debug'):
+        if not c.get('B2_opt:' + k):
+            errs.append(f'vacuity: user-home family never ran with constructor options {k}')
+    if not (have('B2opt:accept/lib/ret') and have('B2opt:reject/lib/exc:') and have('B2opt:accept/cli/exit=0')
+            and have('B2opt:reject/cli/exit=1')):
+        errs.append('vacuity: user-home family with proxy/debug options lacks accept or reject cases (library or CLI)')
+    if not c.get('B2_backend_processes_checked_for_GNUPGHOME'):
+        errs.append('vacuity: user-home family checked no backend process for its GNUPGHOME')
+    # Part E (a shard that stopped early on too many violations cannot meet the space / vacuity counts: the
+    # violations are the result of such a run, and the runner notes the early stop)
+    e_errs = errs
+    errs = []
+    if c['E_cases'] != e_space(tier):
+        errs.append(f'Part E enumerated {c["E_cases"]} (options, environment, operation sequence) cases, the stated '
+                    f'space has {e_space(tier)}')
+    if c['EV_cases'] != ev_space(tier):
+        errs.append(f'Part EV enumerated {c["EV_cases"]} cases, the stated space has {ev_space(tier)}')
+    if c['EC_cases'] != ec_space():
+        errs.append(f'Part EC enumerated {c["EC_cases"]} command lines, the stated space has {ec_space()}')
+    for op in E_OPS + ('close',):
+        if not c.get('E_spawns:' + op):
+            errs.append(f'vacuity: Part E operation {op} never started a backend process (nothing to check)')
+    for pi in E_PROXY:
+        for debug in E_DEBUG:
+            for via in E_VIA:
+                if not c.get(f'E_opt:proxy={"none" if pi is None else pi},debug={debug},{via}'):
+                    errs.append(f'vacuity: Part E never ran with proxy index {pi}, debug={debug}, {via}')
+    for fam in ('E', 'EV', 'EC'):
+        if not (have(fam + ':accept/') and have(fam + ':reject/')):
+            errs.append(f'vacuity: Part {fam} lacks accepted or rejected verdicts (single outcome class)')
+        if not c.get(fam + '_backend_processes_checked_for_GNUPGHOME'):
+            errs.append(f'vacuity: Part {fam} checked no backend process for its GNUPGHOME')
+    for cls in FAIL_NAMES:
+        if not have('EV:reject/exc:' + cls):
+            errs.append(f'vacuity: Part EV never produced rejection class {cls}')
+    if not (have('E:close/home removed') and have('E:close/home kept (debug)')):
+        errs.append('vacuity: Part E did not see both debug=False (home removed) and debug=True (home kept)')
+    for k in ('--import', '--import-ownertrust', '--list-keys', '--refresh-keys', '--verify', '--kill'):
+        if not c.get('EC_spawns:' + k):
+            errs.append(f'vacuity: Part EC command lines never started a backend process {k}')
+    errs = e_errs + ([] if total.capped else errs)
     if c.get('B3_identity_accepted', 0) < 1:
         errs.append('vacuity: the unmutated signed Manifest of the mutation family was not accepted')
     if not have('B3:changed/exc:'):
@@ -1680,19 +2427,31 @@ def finish(total, tier):
 def extra_evidence(total, tier):
     c = total.counters
     nb = len(total.states)
+    n_e = c['E_cases'] + c['EC_cases'] + len(E_PROXY) * len(E_DEBUG)    # stats.case() calls of Parts E, EC, EV
     seen = sorted(k[5:] for k in c if k.startswith('B_kw:'))
     return {
-        'states': c['A_cases'] + nb,
+        'states': c['A_cases'] + c['EV_cases'] + nb,
         'distinct_nontrivial': c['A_cases_nontrivial'] + len(total.nontrivial),
-        'states_meaning': 'Part A (status sequence, exit status) cases, each enumerated once by construction, + Part B '
-                          'distinct real configurations (key state x owner-trust, key state x CLI flags, user home x '
-                          'key file x entry point, body position x mutation kind)',
+        'states_meaning': 'Part A and Part EV (status sequence, exit status[, options]) cases, each enumerated once by '
+                          'construction, + distinct Part B / E / EC configurations (key state x owner-trust, key state '
+                          'x CLI flags, user home x key file x entry point x proxy x debug, body position x mutation '
+                          'kind, options x process environment x operation sequence, -K command lines)',
         'part_a_cases': c['A_cases'],
         'part_a_alphabet': list(ALPHABET),
         'part_a_max_length': tier_len(tier),
-        'part_b_configurations': nb,
+        'part_b_configurations': nb - n_e,
+        'part_e_ec_ev_configurations': n_e,
         'part_b_gpg_invocations': c.get('B_gpg_invocations', 0),
         'part_b_status_keywords_seen': seen,
         'part_a_keywords_never_seen_in_part_b': [k for k in ALPHABET if k not in seen],
         'ownertrust_numbers': {str(k): v for k, v in OT_NAME.items()},
+        'part_e_cases': c['E_cases'],
+        'part_e_operations': list(E_OPS) + ['close'],
+        'part_e_max_sequence_length': e_len(tier),
+        'part_ev_cases': c['EV_cases'],
+        'part_ev_max_length': ev_len(tier),
+        'part_ec_command_lines': c['EC_cases'],
+        'backend_processes_checked_for_GNUPGHOME': {
+            fam: c.get(fam + '_backend_processes_checked_for_GNUPGHOME', 0) for fam in ('E', 'EV', 'EC', 'B2')},
+        'part_e_backend_argv_not_scripted': c.get('E_backend_argv_unscripted', 0),
     }
